@@ -443,4 +443,98 @@ Proof.
     apply (wfS_intro s' d sh Hwf' Est'). intros j. rewrite Hat'.
     destruct (_ =? _)%Z; [exact Hlen|apply (at_length s d sh); assumption].
 Qed.
+(* strictly between two grid points: the two bracketing slots receive the extrapolated pair (older
+   slot off+k+1 the first component, newer slot off+k the second), nothing else changes; the
+   in-place path and the out-of-place path (through writerange) produce the same record *)
+Theorem insert_scalar_off_grid (s : ringR) (o : obsR) off t k extrap inplace d sh :
+  wfS s -> st s = SFull d sh (rows s) -> shape_eqb (oshape o) sh = true -> length (oel o) = nel sh ->
+  (0 < nel sh)%nat -> in_range (N s) t -> between k t ->
+  let sa := IZR (k + 1) * dt - t in
+  let ex := zipw (fun x pn => extrap x sa (fst pn) (snd pn) dt) (oel o)
+                 (combine (at_ s (off + k + 1)) (at_ s (off + k))) in
+  exists s', insert_scalar RN s o dt tol off t extrap inplace = Ok s' OUnit /\
+    wfS s' /\ N s' = N s /\ ptr s' = ptr s /\ st s' = SFull d sh (rows s') /\
+    forall j, at_ s' j =
+      if (j mod Z.of_nat (N s) =? (off + k) mod Z.of_nat (N s))%Z then map snd ex
+      else if (j mod Z.of_nat (N s) =? (off + k + 1) mod Z.of_nat (N s))%Z then map fst ex
+      else at_ s j.
+Proof.
+  intros Hwf Est Hsh Hlen Hnel Hr Hb sa ex. assert (Hf : full s) by (unfold full; rewrite Est; exact I).
+  pose proof (proj1 Hwf) as Hwf0. pose proof Hwf0 as (Hn & Hp & Hl0). rewrite Est in Hl0.
+  destruct (between_in_range (N s) t k Hr Hb) as (Hk0 & Hk1). assert (HN2 : (2 <= N s)%nat) by lia.
+  destruct (ceil_off_between t k off Hb) as (Ec & Efl).
+  pose proof (at_length s d sh (off + k + 1) Hwf Est) as Hlp. pose proof (at_length s d sh (off + k) Hwf Est) as Hln.
+  assert (Hexl : length ex = nel sh).
+  { unfold ex. rewrite zipw_length, combine_length, Hlp, Hln, Hlen. lia. }
+  assert (Hneq : ((off + k) mod Z.of_nat (N s) <> (off + k + 1) mod Z.of_nat (N s))%Z) by (apply mod_succ_neq; lia).
+  (* the common conclusion from a characterisation of at_ s' *)
+  assert (Hfin : forall s', wf s' -> N s' = N s -> ptr s' = ptr s -> st s' = SFull d sh (rows s') ->
+            (forall j, at_ s' j =
+               if (j mod Z.of_nat (N s) =? (off + k) mod Z.of_nat (N s))%Z then map snd ex
+               else if (j mod Z.of_nat (N s) =? (off + k + 1) mod Z.of_nat (N s))%Z then map fst ex
+               else at_ s j) -> wfS s').
+  { intros s' Hwf' _ _ Est' Hat. apply (wfS_intro s' d sh Hwf' Est'). intros j. rewrite Hat.
+    destruct (_ =? _)%Z; [rewrite map_length; exact Hexl|].
+    destruct (_ =? _)%Z; [rewrite map_length; exact Hexl|apply (at_length s d sh); assumption]. }
+  unfold insert_scalar. rn_simpl. rewrite Est, Hsh. cbn [negb]. rw (in_range_ok _ _ Hr). rw (between_off_grid t k Hb).
+  rw Ec. rw Efl. rw (sample_at_between t k Hb).
+  change (nth (idx s (off + k + 1)) (rows s) []) with (at_ s (off + k + 1)).
+  change (nth (idx s (off + k)) (rows s) []) with (at_ s (off + k)).
+  fold sa. fold ex.
+  destruct inplace.
+  - (* in place: two indexed assignments *)
+    eexists. split; [reflexivity|].
+    set (s' := set_st s _).
+    assert (Hat : forall j, at_ s' j =
+               if (j mod Z.of_nat (N s) =? (off + k) mod Z.of_nat (N s))%Z then map snd ex
+               else if (j mod Z.of_nat (N s) =? (off + k + 1) mod Z.of_nat (N s))%Z then map fst ex
+               else at_ s j).
+    { intros j. unfold at_ at 1. unfold s', rows, set_st; cbn [st N ptr]. change (idx (mkRing (N s) (ptr s) _) j) with (idx s j).
+      pose proof (idx_ltR s (off + k) Hwf0). pose proof (idx_ltR s (off + k + 1) Hwf0).
+      rewrite l_nth_upd by (rewrite l_upd_length; lia). rewrite l_nth_upd by lia.
+      pose proof (idx_eq_iffR s j (off + k) Hwf0) as I1. pose proof (idx_eq_iffR s j (off + k + 1) Hwf0) as I2.
+      destruct (Nat.eqb_spec (idx s j) (idx s (off + k))) as [E1|E1];
+        destruct (Z.eqb_spec (j mod Z.of_nat (N s)) ((off + k) mod Z.of_nat (N s))) as [Z1|Z1]; try tauto; [reflexivity|].
+      destruct (Nat.eqb_spec (idx s j) (idx s (off + k + 1))) as [E2|E2];
+        destruct (Z.eqb_spec (j mod Z.of_nat (N s)) ((off + k + 1) mod Z.of_nat (N s))) as [Z2|Z2]; try tauto; reflexivity. }
+    assert (Hwf' : wf s').
+    { unfold s', wf, set_st; cbn [st N ptr]. rewrite !l_upd_length. auto. }
+    assert (Est' : st s' = SFull d sh (rows s')) by reflexivity.
+    split; [apply Hfin; auto|]. auto.
+  - (* out of place: a forward range write of the two columns at the older slot *)
+    set (r := mkRng d sh (map (fun pn : R * R => [fst pn; snd pn]) ex)).
+    assert (Hex : ex <> []) by (intros E; rewrite E in Hexl; cbn in Hexl; lia).
+    assert (Hrl : range_len r = 2%nat).
+    { unfold range_len, r; cbn [rcols]. destruct ex as [|x ex']; [congruence|reflexivity]. }
+    destruct (writerange_scalar_spec (castU RN) promU eqbU 0 s r (off + k + 1) true false Hwf0 Hf) as (d0 & sh0 & Est0 & Hw).
+    { rewrite Hrl. lia. }
+    { rewrite Hrl. unfold r; cbn [rcols]. apply Forall_forall. intros c Hc. apply in_map_iff in Hc. destruct Hc as (pn & <- & _). reflexivity. }
+    rn_simpl. rewrite Est in Est0. injection Est0 as <- <-.
+    destruct (Hw Hsh) as (s' & d' & Hw' & Hwf' & HN' & Hp' & Est' & Hd' & Hat). clear Hw.
+    exists s'. split; [exact Hw'|]. destruct d'.
+    assert (Hat2 : forall j, at_ s' j =
+               if (j mod Z.of_nat (N s) =? (off + k) mod Z.of_nat (N s))%Z then map snd ex
+               else if (j mod Z.of_nat (N s) =? (off + k + 1) mod Z.of_nat (N s))%Z then map fst ex
+               else at_ s j).
+    { intros j. rewrite Hat. rewrite Hrl. unfold shift_off.
+      destruct (hit_cases s (off + k + 1) j Hwf0 HN2) as (H0 & H1).
+      replace (off + k + 1 - 1)%Z with (off + k)%Z in H1 by lia.
+      assert (C0 : col 0 (rcols r) 0 = map fst ex) by (unfold col, r; cbn [rcols]; rewrite map_map; reflexivity).
+      assert (C1 : col 0 (rcols r) 1 = map snd ex) by (unfold col, r; cbn [rcols]; rewrite map_map; reflexivity).
+      assert (Hval : (if (hit s (off + k + 1) j <? 2)%nat then col 0 (rcols r) (hit s (off + k + 1) j) else at_ s j) =
+               if (j mod Z.of_nat (N s) =? (off + k) mod Z.of_nat (N s))%Z then map snd ex
+               else if (j mod Z.of_nat (N s) =? (off + k + 1) mod Z.of_nat (N s))%Z then map fst ex
+               else at_ s j).
+      { destruct (Z.eqb_spec (j mod Z.of_nat (N s)) ((off + k) mod Z.of_nat (N s))) as [Z1|Z1].
+        - rewrite (proj2 H1 Z1). cbn [Nat.ltb Nat.leb]. exact C1.
+        - destruct (Z.eqb_spec (j mod Z.of_nat (N s)) ((off + k + 1) mod Z.of_nat (N s))) as [Z2|Z2].
+          + rewrite (proj2 H0 Z2). cbn [Nat.ltb Nat.leb]. exact C0.
+          + destruct (Nat.ltb_spec (hit s (off + k + 1) j) 2) as [Hlt|]; [|reflexivity].
+            exfalso. destruct (hit s (off + k + 1) j) as [|[|h]] eqn:Eh; [apply Z2; tauto|apply Z1; tauto|lia]. }
+      destruct (true || _)%bool at 1.
+      - destruct (hit s (off + k + 1) j <? 2)%nat eqn:El; rewrite El in Hval; rewrite <- Hval; [apply map_castU|reflexivity].
+      - rewrite map_castU. exact Hval. }
+    split; [apply Hfin; auto|]. auto.
+Qed.
+
 End Time.
